@@ -281,7 +281,17 @@ pub fn child(list: &str, dir: &str) {
     std::fs::create_dir_all(dir).unwrap();
     std::env::set_current_dir(dir).unwrap();
     let out = std::io::stdout();
-    for (gi, line) in txt.lines().enumerate() {
+    // what a process built before must not matter: the processes go through the cases in different orders
+    let lines: Vec<&str> = txt.lines().collect();
+    let n = lines.len();
+    let order: Vec<usize> = match std::env::var("VH_C15_ORDER").ok().and_then(|x| x.parse::<usize>().ok()).unwrap_or(0) % 4 {
+        1 => (0..n).rev().collect(),
+        2 => (0..n).map(|i| (i + n / 2) % n).collect(),
+        3 => (0..n).filter(|i| i % 2 == 1).chain((0..n).filter(|i| i % 2 == 0)).collect(),
+        _ => (0..n).collect(),
+    };
+    for gi in order {
+        let line = lines[gi];
         let mut parts = line.splitn(3, '\t');
         let kind: usize = parts.next().and_then(|x| x.parse().ok()).unwrap_or(0);
         let text = unesc(parts.next().unwrap_or(""));
@@ -614,6 +624,7 @@ fn run_children(cases: &[Case], m: usize, tmp: &Path, deadline: Duration) -> Vec
             .arg("--child")
             .arg(&list)
             .arg(&dir)
+            .env("VH_C15_ORDER", k.to_string())
             .stdin(Stdio::null())
             .stdout(Stdio::from(of))
             .stderr(Stdio::null())
@@ -1013,7 +1024,7 @@ pub fn run(a: &Args) {
                         (Some(x), None) => format!("`{}` vs absent", x.chars().take(120).collect::<String>()),
                         _ => String::new(),
                     };
-                    hfails.push(format!("section {} differs between process {} and process {}: {}", sec, p0, k, why));
+                    hfails.push(format!("section {} differs between process {} and process {}: {} (the processes have fresh hash seeds and go through the run's grammars in different orders: process k uses order k mod 4 of natural / reversed / rotated by half / odd-then-even; this grammar was number {} of {})", sec, p0, k, why, gi, cases.len()));
                     out.count(&format!("differs.{}", sec));
                     break;
                 }
